@@ -45,8 +45,8 @@ class Ghost(object):
 
 
 class LoopSpec(object):
-    def __init__(self, invariant=None, label="inv"):
-        self.invariant, self.label = invariant, label
+    def __init__(self, invariant=None, label="inv", mutates=()):
+        self.invariant, self.label, self.mutates = invariant, label, tuple(mutates)
 
 
 class Contract(object):
@@ -287,7 +287,7 @@ class CallCtx(object):
                 from .symexec import ALLOC0 as _A0
                 r = z3.Int("r!fresh")
                 # pre-existing objects keep their value; only references allocated by the callee are havocked
-                arr = z3.Lambda([r], z3.If(r < _A0 + st.nalloc, z3.Select(base, r), z3.Select(hav, r)))
+                arr = z3.Lambda([r], z3.If(r < st.aptr, z3.Select(base, r), z3.Select(hav, r)))
                 new_arrays[m.name] = arr
             elif isinstance(m, Param):
                 param_after[m.name] = V.fresh("after_" + m.name)
@@ -312,12 +312,14 @@ class CallCtx(object):
 
         # exceptions raised by the callee are allocated by it
         from .symexec import ALLOC0
-        nbefore = st.nalloc
         # the callee may allocate: reserve a block of references for it (objects it creates live there)
-        st.nalloc += 16
+        blk = V.fresh("nalloc", z3.IntSort())
+        st.assume(blk >= 0)
+        lo = st.aptr
+        st.aptr = z3.simplify(st.aptr + blk)
         post_ctx = Ctx(ex, bound, old_arr, new_arr, gold, gnew, ret, raised, exc,
                        lambda n: param_after.get(n, bound[n]), st)
-        post_ctx.block = (ALLOC0 + nbefore, ALLOC0 + nbefore + 16)
+        post_ctx.block = (lo, st.aptr)
         for k, v in new_ghost_vals.items():
             st.ghost[k] = v
         for label, fn_ens, props in con.ensures:
